@@ -2,6 +2,7 @@ import BSModel.Driver.Util
 import BSModel.Model.Formatter
 import BSModel.Model.FormatterBuild
 import BSModel.Model.FormatterPopulate
+import BSModel.Model.FormatterHidden
 import BSModel.Gen.FormatterHtml5
 import BSModel.Gen.Formatter
 /-! line protocol of C15 (formatters)
@@ -74,7 +75,14 @@ def parseFmt (s : String) : Option FmtArg :=
   match s.splitOn "/" with
   | ["k", cls, lang, es, vecp, cdata, eab, indent] =>
     let a := parseArgs es vecp cdata eab indent
-    if cls == "F" then some (.obj (mkFormatter (parseLang lang) a))
+    -- `F@<names>` etc.: a user subclass whose HTML_DEFAULTS['cdata_containing_tags'] is <names> (E = empty)
+    if cls.contains '@' then
+      match cls.splitOn "@" with
+      | [base, hd] =>
+        let l := if base == "F" then parseLang lang else if base == "H" then some .html else some .xml
+        some (.obj (mkFormatterCls (parseNames hd) l a))
+      | _ => none
+    else if cls == "F" then some (.obj (mkFormatter (parseLang lang) a))
     else if cls == "H" then some (.obj (mkHTMLFormatter a))
     else if cls == "X" then some (.obj (mkXMLFormatter a))
     else if cls == "HO" then some (.obj (mkHTMLFormatterOld a))
@@ -220,6 +228,48 @@ def showNodes : List Node → List String
   | k :: ks => showNode k ++ showNodes ks
 end
 
+/-! trees with hidden tags (op `runh`): the `tree` syntax with `TH` in the place of `T` for a hidden tag -/
+mutual
+def parseHNode : Nat → List String → Option (HNode × List String)
+  | 0, _ => none
+  | _ + 1, "S" :: k :: v :: rest => some (.str (parseKind k) (pcps v), rest)
+  | f + 1, t :: nm :: pfx :: cbe :: pre :: na :: rest =>
+    if t == "T" || t == "TH" then
+      match parseAttrs na.toNat! rest with
+      | some (as, nk :: rest') =>
+        match parseHKids f nk.toNat! rest' with
+        | some (ks, rest'') => some (.tag (t == "TH") (pcps nm) (pcps pfx) as (cbe == "1") (pre == "1") ks, rest'')
+        | none => none
+      | _ => none
+    else none
+  | _ + 1, _ => none
+def parseHKids : Nat → Nat → List String → Option (List HNode × List String)
+  | 0, _, _ => none
+  | _ + 1, 0, rest => some ([], rest)
+  | f + 1, n + 1, rest =>
+    match parseHNode f rest with
+    | some (k, rest') =>
+      match parseHKids f n rest' with
+      | some (ks, rest'') => some (k :: ks, rest'')
+      | none => none
+    | none => none
+end
+
+def doRunH (isXml : Bool) (fmt mode parent ng : String) (rest : List String) : String :=
+  match parseFmt fmt with
+  | none => "bad-fmt"
+  | some a =>
+    let k := ng.toNat!
+    let graph := parseGraph (rest.take k)
+    let tt := rest.drop k
+    let par := if parent == "N" then none else some (pcps parent)
+    match parseHNode (tt.length + 1) tt, parseMode mode with
+    | some (n, []), some m =>
+      match formatterForName BS.Gen.fmtHtmlRegistry BS.Gen.fmtXmlRegistry isXml a with
+      | .keyError => "KeyError"
+      | .ok c => showOut (renderModeH c (interpOf graph) m par n)
+    | _, _ => "bad-tree"
+
 def doRun (isXml : Bool) (fmt mode parent ng : String) (rest : List String) : String :=
     match parseFmt fmt with
     | none => "bad-fmt"
@@ -252,6 +302,7 @@ def handle : List String → String
       | .keyError => "KeyError"
     | none => "bad-fmt"
   | "run" :: isXml :: fmt :: mode :: parent :: ng :: rest => doRun (isXml == "1") fmt mode parent ng rest
+  | "runh" :: isXml :: fmt :: mode :: parent :: ng :: rest => doRunH (isXml == "1") fmt mode parent ng rest
   | "runat" :: chain :: rootAttr :: fmt :: mode :: parent :: ng :: rest =>
     -- the flavour is computed by the model's walk over the known_xml chain (N / 0 / 1, innermost first, comma separated)
     let ch : List (Option Bool) := (chain.splitOn ",").filterMap fun t =>
